@@ -118,12 +118,12 @@ theorem ledger_step_destroy {h K : Nat} {L : Ledger} (ha : 0 < L.count) (h' : Na
     exact ⟨rfl, rfl⟩
 
 theorem ledger_step_other {h K : Nat} {L : Ledger} (op : Op) (outs : List Out)
-    (hop : (∃ d, op = .create d) ∨ (∃ x, op = .refcount x) ∨ op = .iterReset) :
+    (hop : (∃ d, op = .create d) ∨ (∃ x, op = .refcount x) ∨ op = .iterReset ∨ op = .createFail) :
     (L.step h K op outs).count = L.count ∧ (L.step h K op outs).destroys = L.destroys := by
   unfold Ledger.step
   by_cases hd : L.count ≤ 0
   · rw [if_pos hd]; exact ⟨rfl, rfl⟩
   · rw [if_neg hd]
-    rcases hop with ⟨d, rfl⟩ | ⟨x, rfl⟩ | rfl <;> exact ⟨rfl, rfl⟩
+    rcases hop with ⟨d, rfl⟩ | ⟨x, rfl⟩ | rfl | rfl <;> exact ⟨rfl, rfl⟩
 
 end QbVerif.Hdb
